@@ -3219,6 +3219,8 @@ impl Zeroconf {
                 if qtype == RRType::ANY && msg.num_authorities() > 0 {
                     if let Some(probe) = dns_registry.probing.get_mut(q_name) {
                         probe.tiebreaking(&msg, q_name);
+                        // A lost tiebreak postpones the probe: wake up when it is due again.
+                        self.timers.push(Reverse(probe.next_send));
                     }
                 }
 
